@@ -9,11 +9,12 @@ pub mod error {
     #[verifier::external_body]
     pub struct Error { _p: u8 }
 }
-pub mod brush_parser { pub mod word {
-    use vstd::prelude::*;
-    #[verifier::external_body]
-    pub struct TildeExpr { _p: u8 }
-} }
+// the word parser's types: WordPiece / WordPieceWithSource are the real definitions (extracted by the unit above this prelude),
+// what they refer to is opaque
+#[verifier::external_body] pub struct TildeExpr { _p: u8 }
+#[verifier::external_body] pub struct ParameterExpr { _p: u8 }
+pub mod ast { use vstd::prelude::*; #[verifier::external_body] pub struct UnexpandedArithmeticExpr { _p: u8 } }
+pub mod brush_parser { pub mod word { pub use super::super::{TildeExpr, ParameterExpr, WordPiece, WordPieceWithSource}; } }
 pub trait VxOwned { spec fn vx_view(&self) -> Seq<char>; fn vx_owned(self) -> (r: String) ensures r@ == self.vx_view(); }
 impl VxOwned for String { open spec fn vx_view(&self) -> Seq<char> { self@ } #[verifier::external_body] fn vx_owned(self) -> (r: String) { self } }
 pub struct WordExpander { pub disable_command_substitutions: bool, pub in_double_quotes: bool, pub u: u8 }   // projection (fields checked)
@@ -97,7 +98,6 @@ pub fn string_truncate(s: &mut String, n: usize)
 // ---- double-quoted sequences.  The pieces inside "..." are expanded with WordExpander::in_double_quotes set (parameter words rely
 //  on it: `${p:+"$x"}` strips its own quotes when an enclosing double-quote pass will make the result unsplittable), and the flag
 //  must be back to what it was on EVERY exit of the arm, or the rest of the word is expanded as if it were inside quotes.
-#[verifier::external_body] pub struct WordPieceWithSource { _p: u8 }
 pub open spec fn all_unsplittable(fs: Seq<WordField>) -> bool {
     forall|i: int, j: int| 0 <= i < fs.len() && 0 <= j < fs[i].0@.len() ==> (#[trigger] fs[i].0@[j]) is Unsplittable
 }
